@@ -121,6 +121,12 @@ impl<'src: 'run, 'run> ArgumentParser<'src, 'run> {
             },
           });
         }
+        // an alias may point into a submodule: the invocation is built along
+        // the path of its target, so that the recipe runs in its own module
+        if let Some(target) = current.aliases.get(arg).and_then(|alias| alias.path.as_ref()) {
+          path.pop();
+          path.extend(target.spaced().path);
+        }
         return Ok((recipe, path, i + 1));
       } else {
         if module_path && i + 1 < args.len() {
